@@ -105,6 +105,11 @@ func dstGrid(r *workload.Rand, need int) [][]byte {
 }
 
 // C16: inputs never modified; append semantics; scratch contents irrelevant; outputs own their memory.
+var (
+	canaryDoc = []byte(`[{"a":1},{},{"b":2},{}]`)
+	canaryObj = []byte(` {} `)
+)
+
 func RunC16(c *Ctx) {
 	var longBuf rjson.Buffer
 	var longVR, histVR rjson.ValueReader
@@ -339,6 +344,32 @@ func RunC16(c *Ctx) {
 				c.Rec.Violate(cs, "a ValueReader used on earlier inputs returns something else than a brand-new one", "ValueReader.ReadValue", fmt.Sprintf("p=%d err=%s val=%s", p2, errStr(e2), show(v2)), fmt.Sprintf("p=%d err=%s val=%s", p1, errStr(e1), show(v1)))
 			}
 		})
+		// D0. two results (or two parts of one result) never share a container, empty ones included:
+		// the caller writes into one empty object and looks at the others (seeded change C16r7-m2:
+		// one package-level map returned for every {} read while a size hint was in force)
+		if c.Rec.R.Cases%16 == 0 {
+			c.Guarded(cs, "ReadValue/ReadObject (empty containers are the caller's own)", func() {
+				v, _, err := rjson.ReadValue(canaryDoc)
+				o2, _, err2 := longVR.ReadObject(canaryObj)
+				c.Rec.Evals(2)
+				c.Rec.C("empty_container_canaries")
+				arr, ok := v.([]interface{})
+				if err != nil || err2 != nil || !ok || len(arr) != 4 {
+					c.Rec.Violate(cs, "canary document not decoded", "ReadValue", "four elements", show(v))
+					return
+				}
+				m1, _ := arr[1].(map[string]interface{})
+				m3, _ := arr[3].(map[string]interface{})
+				if m1 == nil || m3 == nil || len(m1) != 0 || len(m3) != 0 || len(o2) != 0 {
+					c.Rec.Violate(cs, "an empty object is decoded as something else than an empty map (state left by an earlier caller's write?)", "ReadValue", "[{a:1} {} {b:2} {}] and {}", show(v)+" and "+show(o2))
+					return
+				}
+				m1["written by the caller"] = true
+				if len(m3) != 0 || len(o2) != 0 {
+					c.Rec.Violate(cs, "writing into one returned empty object changed another returned empty object", "ReadValue", "independent maps", show(v)+" and "+show(o2))
+				}
+			})
+		}
 		// D. value trees own their memory
 		c.Guarded(cs, "ReadValue (ownership)", func() {
 			for vi := 0; vi < 2; vi++ {
